@@ -279,8 +279,10 @@ H("C01", "mpq", _BP, "quick", "C01.d multi-sector file (513 bytes, two sectors) 
   ["c01d_ms_plain"], _pathfns,
   "last 4 bytes of sector 0 and the byte of sector 1 symbolic (rest concrete 0x11), codec payload symbolic", "513-byte file, sector size 512",
   stubs=[FMT, MEMFILE, CODEC], abstraction_stubs=["compress", "decompress"], timeout=1200)
-H("C01", "mpq", _BP, "thorough", "C01.d multi-sector file: sector-CRC flag, encrypted, position-adjusted key, encrypted + compressed",
-  ["c01d_ms_codec", "c01d_ms_plain_crcflag", "c01d_ms_codec_crc", "c01d_ms_enc", "c01d_ms_enc_fix", "c01d_ms_enc_codec", "c01d_ms_enc_fix_codec"],
+# c01d_ms_codec, c01d_ms_codec_crc, c01d_ms_enc_codec, c01d_ms_enc_fix_codec (a sector that shrinks under the abstract codec) are NOT registered:
+# each runs into the 40-minute time-out (again measured in round 3, 5-10 GB each); compressed multi-sector files stay outside the C01 claim.
+H("C01", "mpq", _BP, "thorough", "C01.d multi-sector file stored uncompressed: sector-CRC flag, encrypted, position-adjusted key",
+  ["c01d_ms_plain_crcflag", "c01d_ms_enc", "c01d_ms_enc_fix"],
   _pathfns + ["archive::Archive::read_sectored_file"], "as above", "513-byte file, sector size 512",
   stubs=[FMT, MEMFILE, CODEC], abstraction_stubs=["compress", "decompress"], timeout=2400)
 H("C01", "mpq", _BP, "thorough", "C01.d single-unit file with sector checksum (real Adler-32 over symbolic bytes)",
